@@ -402,7 +402,7 @@ theorem C08_tie_fn_fileLockIsStale (now created updated : Nat) :
 present, is a real instant (not the zero time), with an absent NextUpdate handed over as the zero time. -/
 theorem C14_tie_fn_currentOCSP (now : Int) (r : CM.OCSP.Resp)
     (hnu : ∀ nu, r.nextUpdate = some nu → nu ≠ 0) :
-    CM.Gen.Fn.currentOCSP now ⟨r.thisUpdate, r.nextUpdate.getD 0, 0⟩ = CM.OCSP.current now r := by
+    CM.Gen.Fn.currentOCSP now ⟨r.thisUpdate, r.nextUpdate.getD 0, 0, none⟩ = CM.OCSP.current now r := by
   unfold CM.Gen.Fn.currentOCSP CM.OCSP.current
   simp only [time_Before, time_After, time_IsZero]
   cases hn : r.nextUpdate with
@@ -443,7 +443,7 @@ def statusCode : CM.OCSP.Status → Int
   | .unknown => 2
 
 /-- a model response as the translated struct -/
-def encResp (r : CM.OCSP.Resp) : CM.Gen.Fn.ocsp_Response := ⟨r.thisUpdate, r.nextUpdate.getD 0, statusCode r.status⟩
+def encResp (r : CM.OCSP.Resp) : CM.Gen.Fn.ocsp_Response := ⟨r.thisUpdate, r.nextUpdate.getD 0, statusCode r.status, none⟩
 
 /-- **the model's `shouldForce` IS the translated `certShouldBeForceRenewed`**: for every cache entry
 (managed or not, any list of names, with or without a stapled response of any status). -/
@@ -484,5 +484,78 @@ theorem C15_tie_fn_not_looking_passes (E : CM.Challenge.Env) (S : CM.Challenge.S
       have : (r.method != CM.Challenge.GET) = false := by simp [bne, hm]
       simp [this, hp]
   · simp
+
+/-! ### `freshOCSP` (C14): saturating `Sub`, the responder certificate behind a nilable pointer -/
+
+/-- a model response as the translated struct, instants shifted by `K` (the distance from the zero time to
+the model's epoch) -/
+def encRespK (K : Int) (r : CM.OCSP.Resp) : CM.Gen.Fn.ocsp_Response :=
+  { ThisUpdate := r.thisUpdate + K
+    NextUpdate := (r.nextUpdate.map (· + K)).getD 0
+    Status := statusCode r.status
+    Certificate := r.responderNotAfter.map (fun ca => ⟨ca + K⟩) }
+
+theorem tdiv_min : Int.tdiv minDuration 2 = -4611686018427387904 := by decide
+
+/-- **the model's `fresh` IS the translated `freshOCSP`** — including the case of an absent NextUpdate, where
+Go's saturating `Sub` puts the refresh time 2^62 ns before ThisUpdate (the model's `halfMinDuration`):
+for every shift `K` that makes the instants real ones (more than 2^63 ns after the zero time — true of
+every date after the year 293), every `now`, and every response whose validity period and responder
+certificate lie within ±2^63 ns (292 years) of ThisUpdate. -/
+theorem C14_tie_fn_freshOCSP (K now : Int) (r : CM.OCSP.Resp)
+    (htu : r.thisUpdate + K > 9223372036854775808)
+    (hnu : ∀ nu, r.nextUpdate = some nu → nu + K > 0 ∧ nu - r.thisUpdate ≤ 9223372036854775807 ∧
+      -9223372036854775808 ≤ nu - r.thisUpdate)
+    (hca : ∀ ca, r.responderNotAfter = some ca → ca + K > 0 ∧ ca - r.thisUpdate ≤ 9223372036854775807 ∧
+      -9223372036854775808 ≤ ca - r.thisUpdate) :
+    CM.Gen.Fn.freshOCSP (now + K) (encRespK K r) = CM.OCSP.fresh now r := by
+  have hsub : ∀ x : Int, x - r.thisUpdate ≤ 9223372036854775807 → -9223372036854775808 ≤ x - r.thisUpdate →
+      time_Sub (x + K) (r.thisUpdate + K) = x - r.thisUpdate := by
+    intro x h1 h2
+    unfold time_Sub maxDuration minDuration
+    have e : x + K - (r.thisUpdate + K) = x - r.thisUpdate := by omega
+    rw [e]
+    have a : ¬ (x - r.thisUpdate > 9223372036854775807) := by omega
+    have b : ¬ (x - r.thisUpdate < -9223372036854775808) := by omega
+    simp only [a, b, if_false]
+  have hzero : time_Sub 0 (r.thisUpdate + K) = minDuration := by
+    unfold time_Sub maxDuration minDuration
+    have a : ¬ (0 - (r.thisUpdate + K) > 9223372036854775807) := by omega
+    have b : (0 - (r.thisUpdate + K) < -9223372036854775808) := by omega
+    simp only [a, b, if_false, if_true]
+  have hbefore : ∀ x y : Int, time_Before (x + K) (y + K) = decide (x < y) := by
+    intro x y; unfold time_Before; apply decide_eq_decide.mpr; constructor <;> intro _ <;> omega
+  unfold CM.Gen.Fn.freshOCSP CM.OCSP.fresh encRespK
+  cases hn : r.nextUpdate with
+  | none =>
+    cases hc : r.responderNotAfter with
+    | none =>
+      simp only [Option.map_none, Option.getD_none, Option.isSome_none, Bool.false_and, Bool.false_eq_true,
+        if_false, hzero, tdiv_min, time_Add, CM.OCSP.halfMinDuration]
+      unfold time_Before; apply decide_eq_decide.mpr; constructor <;> intro _ <;> omega
+    | some ca =>
+      have hpos := (hca ca hc).1
+      have hb : time_Before (ca + K) 0 = false := by unfold time_Before; simp; omega
+      simp only [Option.map_none, Option.getD_none, Option.map_some, Option.isSome_some, Bool.true_and, deref,
+        Option.getD_some, hb, Bool.false_eq_true, if_false, hzero, tdiv_min, time_Add, CM.OCSP.halfMinDuration]
+      unfold time_Before; apply decide_eq_decide.mpr; constructor <;> intro _ <;> omega
+  | some nu =>
+    obtain ⟨_, hn1, hn2⟩ := hnu nu hn
+    cases hc : r.responderNotAfter with
+    | none =>
+      simp only [Option.map_some, Option.getD_some, Option.map_none, Option.isSome_none, Bool.false_and,
+        Bool.false_eq_true, if_false, hsub nu hn1 hn2, time_Add]
+      have e : r.thisUpdate + K + (nu - r.thisUpdate).tdiv 2 = (r.thisUpdate + (nu - r.thisUpdate).tdiv 2) + K := by omega
+      rw [e, hbefore]
+    | some ca =>
+      obtain ⟨_, hc1, hc2⟩ := hca ca hc
+      simp only [Option.map_some, Option.getD_some, Option.isSome_some, Bool.true_and, deref, hbefore]
+      by_cases hlt : ca < nu
+      · simp only [hlt, decide_true, if_true, hsub ca hc1 hc2, time_Add]
+        have e : r.thisUpdate + K + (ca - r.thisUpdate).tdiv 2 = (r.thisUpdate + (ca - r.thisUpdate).tdiv 2) + K := by omega
+        rw [e, hbefore]
+      · simp only [hlt, decide_false, Bool.false_eq_true, if_false, hsub nu hn1 hn2, time_Add]
+        have e : r.thisUpdate + K + (nu - r.thisUpdate).tdiv 2 = (r.thisUpdate + (nu - r.thisUpdate).tdiv 2) + K := by omega
+        rw [e, hbefore]
 
 end CM.Tie.Fn
